@@ -2,8 +2,8 @@
 
 B: histories of configuration operations interleaved with observations, every observation
 compared with a pristine interpreter replaying only the configuration, and with the same
-observation after apischema.cache.reset() (drivers/cache_hist.py).  No pyvc obligation is tagged
-with C09 yet: run_p is called so that they are included as soon as they exist."""
+observation after apischema.cache.reset() (drivers/cache_hist.py).
+P: the pyvc obligations of the contracts tagged C09, when there are some (run_p)."""
 from drivers import cache_hist
 from vf.pcheck import run_p
 
